@@ -103,6 +103,18 @@ func init() {
 				}
 			}
 			rec("", 0)
+			// long masks: the regular-expression TEXT of a mask is longer than the mask (escapes, 21 bytes per "^", 40 per
+			// "||"), far beyond any URL cap, while the URLs it describes stay short
+			for _, unit := range []string{"a/", "a.", "^", "a^", "/?", "+b"} {
+				for _, n := range []int{200, 1000, 1400, 2000} {
+					if (unit == "^" || unit == "a^") && n > 400 {
+						continue
+					}
+					p := "||h.org/" + strings.Repeat(unit, n)
+					subj := "http://h.org/" + strings.Repeat(strings.ReplaceAll(unit, "^", "/"), n)
+					emit(hx(p) + "\t" + b01(n%400 == 0) + "\t" + encList([]string{subj, subj + "x", subj[:len(subj)-1], "http://h.org/"}))
+				}
+			}
 			for i := 0; i < sampled; i++ {
 				var p string
 				switch g.Intn(4) {
